@@ -109,7 +109,7 @@ fn recovery() -> Vec<HOp> {
 }
 
 fn units(_tier: &str) -> usize {
-    grid().len() + dup_cases().len() + NG.len() + dir_cases().len() + 6 + NG.len() + 1
+    grid().len() + dup_cases().len() + NG.len() + dir_cases().len() + 6 + NG.len() + 3
 }
 
 // ---------------------------------------------------------------- a rename that really fails
@@ -255,7 +255,7 @@ fn run_long_name(naming: NamingK, mode: ModeK) -> Result<usize, Fail> {
 /// is closed by a rotation cannot be written. W x 6, shutdown: that loss is reported, the
 /// records logged after the rotation (the next file is a regular one) are all there, and no
 /// empty file is closed.
-fn run_cur_full_buffered(naming: Option<NamingK>) -> Result<usize, Fail> {
+fn run_cur_full_buffered(naming: Option<NamingK>, closer: usize) -> Result<usize, Fail> {
     let env = Env::new("c19b");
     env.enter();
     // (without rotation: two records, both are still in the buffer at shutdown)
@@ -287,6 +287,21 @@ fn run_cur_full_buffered(naming: Option<NamingK>) -> Result<usize, Fail> {
         }
     }
     let lines = h.accepted.clone();
+    // without rotation, the file is closed by shutdown(), by reopen_output() or by reset_flw()
+    let how = ["shutdown()", "reopen_output()", "reset_flw()"][closer.min(2)];
+    if naming.is_none() && closer > 0 {
+        let by_result = usize::from(h.apply(if closer == 1 { HOp::Reopen } else { HOp::ResetSame }).is_err());
+        let reported = env.errlines().len() + by_result;
+        if reported == 0 {
+            h.stop();
+            drop(h);
+            env.leave();
+            return Err(Fail {
+                clause: "not-reported",
+                detail: format!("two records were accepted into the buffer of a file on a full device; {how} closed that file and could not write them, but neither its result nor the error channel said so"),
+            });
+        }
+    }
     h.stop();
     drop(h);
     env.leave();
@@ -295,7 +310,7 @@ fn run_cur_full_buffered(naming: Option<NamingK>) -> Result<usize, Fail> {
         return if reported == 0 {
             Err(Fail {
                 clause: "not-reported",
-                detail: "two records were accepted into the buffer of a file on a full device; shutdown() could not write them, but nothing was written to the error channel".into(),
+                detail: format!("two records were accepted into the buffer of a file on a full device; {how} could not write them, but nothing was written to the error channel"),
             })
         } else {
             Ok(reported)
@@ -341,13 +356,14 @@ fn run_cur_full_buffered(naming: Option<NamingK>) -> Result<usize, Fail> {
 fn run_rename_dir_unit(idx: usize, unit: usize, out: &mut Out) {
     if idx >= 6 {
         let naming = NG.get(idx - 6).copied();
+        let closer = (idx - 6).saturating_sub(NG.len());
         let case = json!({"unit": unit, "rename_dir": idx});
-        let cause = format!("current-file-on-full-device/buffered/{}", naming.map_or("no-rotation", |n| n.short()));
+        let cause = format!("current-file-on-full-device/buffered/{}", naming.map_or(["no-rotation", "no-rotation/reopen", "no-rotation/reset"][closer.min(2)], |n| n.short()));
         let mut vs = Vec::new();
         for _ in 0..2 {
             out.evaluations += 1;
             out.transitions += 7;
-            match run_isolated(Duration::from_secs(30), move || run_cur_full_buffered(naming)) {
+            match run_isolated(Duration::from_secs(30), move || run_cur_full_buffered(naming, closer)) {
                 Ran::Done(Ok(n)) => {
                     out.outcome(format!("current file full (buffered): error lines={}", n.min(9)));
                     break;
